@@ -170,8 +170,37 @@ CLAIMED = {
              '(drift 0); random histories on random class hierarchies are validated by TLC.',
         design='4/C13',
         technique='TLA+ machine spec + TLC exploration of registration/lookup histories, replay into glom, TLC trace validation, spec mutants'),
+    'C03': dict(
+        text='GlomAuto!Eval(st, env, target, spec) is a state-passing transcription of the dispatcher and the Auto / Fill / argument-mode '
+             'handlers (dict / OrderedDict incl. T / Spec keys, list, tuple, Pipe, callables, Val, Spec, Coalesce with all options, Call, '
+             'Invoke, Ref with recursion on nested data) that threads the heap (fresh cells for built containers) and the call log left to '
+             'right; the compositional laws L1-L8 (chain equation, dict / list shape with SKIP / STOP, Coalesce first success and nothing '
+             'later evaluated, callable receives the current target once, Call / Invoke order, evaluate-once) are separate operators checked '
+             'by TLC as invariants at every node of every spec tree enumerated by a postfix stack machine, with four spec mutants; every '
+             '(tree, target) case is replayed into glom with instrumented callables (value graph up to renaming of fresh cells, error '
+             'class, call log); random type-directed deeper specs recorded from the library are validated row by row by TLC.',
+        design='4/C03',
+        technique='TLA+ spec + TLC enumeration (postfix tree construction) with law invariants, replay with instrumented callables, TLC validation of recorded executions'),
+    'C09': dict(
+        text='GlomMatch states the documented matching rules once as a boolean reading Holds and a denoted value Denotes, separately from '
+             'a sequential evaluator Ev mirroring matching.py (outcome with permitted exception classes, call log and identity flag); TLC '
+             'checks six laws (Decides, Result, Unchanged, ErrClass, Default, Fragment) on every (pattern, target) pair within the bound '
+             '(types, literals, list / set / frozenset / tuple / dict patterns with Optional / Required / compound keys, Regex tables, '
+             'predicates, And / Or / Not, M) with five spec mutants; every pair is replayed through glom(), Match.verify(), Match.matches() '
+             'and Match(default=) with == comparison of results, permitted classes and target snapshots; seeded deeper patterns with '
+             'derived conforming targets and one-edit mutations are validated row by row by TLC.',
+        design='4/C09',
+        technique='TLA+ spec + TLC enumeration with spec mutants, replay into glom, TLC validation of recorded executions'),
+    'C10': dict(
+        text='The combinator layer of GlomMatch: M / And / Or / Not / Switch / Check trees in constructor and operator forms with defaults, '
+             'eight laws incl. the truth-functional reading, result values, short-circuit call-log laws, rejections as MatchError / '
+             'CheckError, checked by TLC on every tree x target within the bound and on every Check keyword subset, with six spec mutants '
+             'incl. the three historic defects; every case is replayed with instrumented predicates (result, identity, class, call log); '
+             'random trees to depth 5 are validated by TLC.',
+        design='4/C10',
+        technique='TLA+ spec + TLC enumeration with spec mutants, replay into glom, TLC validation of recorded executions'),
 }
 
-PENDING_REASON = 'check not built yet (planned: see DESIGN.md section 4); not claimed until both binding directions exist'
+PENDING_REASON = 'not claimed'
 HOOK_COMMITS = ['2d093ff']
 ALL = ['C%02d' % i for i in range(1, 21)]
